@@ -31,15 +31,16 @@ static inline int fe_same_or_normalised(wide newv, wide oldv) { wide p = P_(); i
 #define KC_PK_ENSURES
 #endif
 #ifdef LOG_KEYAGGCOEF
-int g_kc_n; secp256k1_scalar g_kc_r0; secp256k1_ge g_kc_pk0; const secp256k1_keyagg_cache_internal *g_kc_cache0;
+int g_kc_n; secp256k1_scalar g_kc_r0; secp256k1_ge g_kc_pk0, g_kc_second0; size_t g_kc_i /* ghost index < 32, never assigned */; unsigned char g_kc_hash_b0;   /* content of the cache the coefficient was asked for */
 #endif
 static void secp256k1_musig_keyaggcoef(const secp256k1_hash_ctx *hash_ctx, secp256k1_scalar *r, const secp256k1_keyagg_cache_internal *cache_i, secp256k1_ge *pk)
 __CPROVER_requires(__CPROVER_w_ok(r, sizeof(*r)) && __CPROVER_r_ok(cache_i, sizeof(*cache_i)) && __CPROVER_rw_ok(pk, sizeof(*pk)) && ge_ok(pk))
 #ifdef LOG_KEYAGGCOEF
-__CPROVER_assigns(*r, *pk, g_kc_n, g_kc_r0, g_kc_pk0, g_kc_cache0)
+__CPROVER_requires(g_kc_i < 32)
+__CPROVER_assigns(*r, *pk, g_kc_n, g_kc_r0, g_kc_pk0, g_kc_second0, g_kc_hash_b0)
 __CPROVER_ensures(g_kc_n == __CPROVER_old(g_kc_n) + 1)
-__CPROVER_ensures(__CPROVER_old(g_kc_n) == 0 ==> (SC_EQ(g_kc_r0, *r) && FE_EQ_OLD(g_kc_pk0.x, pk->x) && FE_EQ_OLD(g_kc_pk0.y, pk->y) && g_kc_cache0 == cache_i))
-__CPROVER_ensures(__CPROVER_old(g_kc_n) != 0 ==> (SC_KEEP(g_kc_r0) && FE_KEEP(g_kc_pk0.x) && FE_KEEP(g_kc_pk0.y) && g_kc_cache0 == __CPROVER_old(g_kc_cache0)))
+__CPROVER_ensures(__CPROVER_old(g_kc_n) == 0 ==> (SC_EQ(g_kc_r0, *r) && FE_EQ_OLD(g_kc_pk0.x, pk->x) && FE_EQ_OLD(g_kc_pk0.y, pk->y) && GE_EQ(g_kc_second0, cache_i->second_pk) && g_kc_hash_b0 == cache_i->pks_hash[g_kc_i]))
+__CPROVER_ensures(__CPROVER_old(g_kc_n) != 0 ==> (SC_KEEP(g_kc_r0) && FE_KEEP(g_kc_pk0.x) && FE_KEEP(g_kc_pk0.y) && GE_KEEP(g_kc_second0) && g_kc_hash_b0 == __CPROVER_old(g_kc_hash_b0)))
 #else
 __CPROVER_assigns(*r, *pk)
 #endif
@@ -59,12 +60,23 @@ KC_PK_ENSURES
 ;
 #endif
 
+/* ---- BIP-340 challenge (proved at hash level by the C02 units): summary that logs the CONTENT of all three inputs at a ghost index ---- */
+#ifdef LOG_CHALLENGE32
+int g_ch_n; size_t g_ch_i /* ghost index < 32, never assigned */; size_t g_ch_msglen; unsigned char g_ch_r_b, g_ch_pk_b, g_ch_msg_b; secp256k1_scalar g_ch_e;
+static void secp256k1_schnorrsig_challenge(const secp256k1_hash_ctx *hash_ctx, secp256k1_scalar* e, const unsigned char *r32, const unsigned char *msg, size_t msglen, const unsigned char *pubkey32)
+__CPROVER_requires(hash_ctx != NULL && __CPROVER_w_ok(e, sizeof(*e)) && __CPROVER_r_ok(r32, 32) && __CPROVER_r_ok(pubkey32, 32) && (msglen == 0 || __CPROVER_r_ok(msg, msglen)) && g_ch_i < 32)
+__CPROVER_assigns(*e, g_ch_n, g_ch_msglen, g_ch_r_b, g_ch_pk_b, g_ch_msg_b, g_ch_e)
+__CPROVER_ensures(g_ch_n == __CPROVER_old(g_ch_n) + 1 && g_ch_msglen == msglen && g_ch_r_b == r32[g_ch_i] && g_ch_pk_b == pubkey32[g_ch_i] && (msglen > g_ch_i ==> g_ch_msg_b == msg[g_ch_i]) && SC_EQ(g_ch_e, *e))
+__CPROVER_ensures(scalar_ok(e))
+;
+#endif
+
 /* ---- the MuSig nonce derivation function: frame + "two scalars" + log of what it was handed ---- */
 #ifdef LOG_NONCE_FN
 int g_nf_n;                  /* calls so far */
 size_t g_nf_i;               /* ghost byte index < 32, fixed by the harness, never assigned */
-const unsigned char *g_nf_msg_p, *g_nf_sk_p, *g_nf_agg_p, *g_nf_extra_p;
-unsigned char g_nf_rand_b, g_nf_sk_b, g_nf_pk0, g_nf_pk_b, g_nf_agg_b;
+int g_nf_has_msg, g_nf_has_sk, g_nf_has_agg, g_nf_has_extra;    /* which optional inputs were present (no pointer-typed ghosts: content is logged) */
+unsigned char g_nf_rand_b, g_nf_sk_b, g_nf_pk0, g_nf_pk_b, g_nf_agg_b, g_nf_msg_b, g_nf_extra_b;
 secp256k1_scalar g_nf_k0, g_nf_k1;
 #endif
 static void secp256k1_nonce_function_musig(const secp256k1_hash_ctx *hash_ctx, secp256k1_scalar *k, const unsigned char *session_secrand, const unsigned char *msg32, const unsigned char *seckey32, const unsigned char *pk33, const unsigned char *agg_pk32, const unsigned char *extra_input32)
@@ -72,12 +84,14 @@ __CPROVER_requires(hash_ctx != NULL && __CPROVER_w_ok(k, 2 * sizeof(*k)) && __CP
 __CPROVER_requires((msg32 == NULL || __CPROVER_r_ok(msg32, 32)) && (seckey32 == NULL || __CPROVER_r_ok(seckey32, 32)) && (agg_pk32 == NULL || __CPROVER_r_ok(agg_pk32, 32)) && (extra_input32 == NULL || __CPROVER_r_ok(extra_input32, 32)))
 #ifdef LOG_NONCE_FN
 __CPROVER_requires(g_nf_i < 32)
-__CPROVER_assigns(k[0], k[1], g_nf_n, g_nf_msg_p, g_nf_sk_p, g_nf_agg_p, g_nf_extra_p, g_nf_rand_b, g_nf_sk_b, g_nf_pk0, g_nf_pk_b, g_nf_agg_b, g_nf_k0, g_nf_k1)
+__CPROVER_assigns(k[0], k[1], g_nf_n, g_nf_has_msg, g_nf_has_sk, g_nf_has_agg, g_nf_has_extra, g_nf_rand_b, g_nf_sk_b, g_nf_pk0, g_nf_pk_b, g_nf_agg_b, g_nf_msg_b, g_nf_extra_b, g_nf_k0, g_nf_k1)
 __CPROVER_ensures(g_nf_n == __CPROVER_old(g_nf_n) + 1)
-__CPROVER_ensures(g_nf_msg_p == msg32 && g_nf_sk_p == seckey32 && g_nf_agg_p == agg_pk32 && g_nf_extra_p == extra_input32)
+__CPROVER_ensures(g_nf_has_msg == (msg32 != NULL) && g_nf_has_sk == (seckey32 != NULL) && g_nf_has_agg == (agg_pk32 != NULL) && g_nf_has_extra == (extra_input32 != NULL))
 __CPROVER_ensures(g_nf_rand_b == session_secrand[g_nf_i] && g_nf_pk0 == pk33[0] && g_nf_pk_b == pk33[1 + g_nf_i])
 __CPROVER_ensures(seckey32 != NULL ==> g_nf_sk_b == seckey32[g_nf_i])
 __CPROVER_ensures(agg_pk32 != NULL ==> g_nf_agg_b == agg_pk32[g_nf_i])
+__CPROVER_ensures(msg32 != NULL ==> g_nf_msg_b == msg32[g_nf_i])
+__CPROVER_ensures(extra_input32 != NULL ==> g_nf_extra_b == extra_input32[g_nf_i])
 __CPROVER_ensures(SC_EQ(g_nf_k0, k[0]) && SC_EQ(g_nf_k1, k[1]))
 #else
 __CPROVER_assigns(k[0], k[1])
@@ -152,13 +166,13 @@ __CPROVER_ensures(gej_ok(out_nonce))
 
 /* ---- multi-scalar multiplication with callback (KeyAgg sum): pure oracle; logs how it was invoked ---- */
 #ifdef LOG_ECMULT_MULTI
-int g_mm_n; size_t g_mm_count; const void *g_mm_cbdata; secp256k1_ecmult_multi_callback *g_mm_cb; const secp256k1_scalar *g_mm_gsc; secp256k1_gej g_mm_r; int g_mm_ret;
+int g_mm_n; size_t g_mm_count; const void *g_mm_cbdata; secp256k1_ecmult_multi_callback *g_mm_cb; int g_mm_has_gsc; secp256k1_scalar g_mm_gscv; secp256k1_gej g_mm_r; int g_mm_ret;
 #endif
 static int secp256k1_ecmult_multi_var(const secp256k1_callback* error_callback, secp256k1_scratch *scratch, secp256k1_gej *r, const secp256k1_scalar *inp_g_sc, secp256k1_ecmult_multi_callback cb, void *cbdata, size_t n)
-__CPROVER_requires(__CPROVER_w_ok(r, sizeof(*r)))
+__CPROVER_requires(__CPROVER_w_ok(r, sizeof(*r)) && (inp_g_sc == NULL || (__CPROVER_r_ok(inp_g_sc, sizeof(*inp_g_sc)) && scalar_ok(inp_g_sc))))
 #ifdef LOG_ECMULT_MULTI
-__CPROVER_assigns(*r, g_mm_n, g_mm_count, g_mm_cbdata, g_mm_cb, g_mm_gsc, g_mm_r, g_mm_ret)
-__CPROVER_ensures(g_mm_n == __CPROVER_old(g_mm_n) + 1 && g_mm_count == n && g_mm_cbdata == cbdata && g_mm_cb == cb && g_mm_gsc == inp_g_sc && GEJ_EQ(g_mm_r, *r) && g_mm_ret == __CPROVER_return_value)
+__CPROVER_assigns(*r, g_mm_n, g_mm_count, g_mm_cbdata, g_mm_cb, g_mm_has_gsc, g_mm_gscv, g_mm_r, g_mm_ret)
+__CPROVER_ensures(g_mm_n == __CPROVER_old(g_mm_n) + 1 && g_mm_count == n && g_mm_cbdata == cbdata && g_mm_cb == cb && g_mm_has_gsc == (inp_g_sc != NULL) && (inp_g_sc == NULL || SC_EQ(g_mm_gscv, *inp_g_sc)) && GEJ_EQ(g_mm_r, *r) && g_mm_ret == __CPROVER_return_value)
 #else
 __CPROVER_assigns(*r)
 #endif
